@@ -1,6 +1,7 @@
 -- root of the proof library: property theorems (Props) and their helper lemmas
 import Blackbird.Props.C02
 import Blackbird.Props.C03
+import Blackbird.Props.C03Parse
 import Blackbird.Props.C04
 import Blackbird.Props.C05
 import Blackbird.Props.C06
